@@ -29,11 +29,15 @@ TEMPLATE = os.path.join(HERE, "x64")
 SPEC = os.path.join(VERIF, "spec", "x64.toml")
 REPO = os.environ.get("VERIF_REPO", "/repo")
 
-FULL_PAD = 140      # branch units: symbolic filler 0..=FULL_PAD bytes (design bound, covers the rel8/rel32 switch)
-QUICK_PAD = int(os.environ.get("C07_QUICK_PAD", "140"))
-RL_PAD = 24         # RIP-relative label loads have no short/near switch
-QUICK_RL_PAD = 6
-UNWIND = int(os.environ.get("C07_UNWIND", "8"))
+# label units: distance between instruction and label = base (filler emitted at concrete
+# positions) + a symbolic 0..=EXTRA_PAD nops; the bases tile 0..=143 completely in the thorough
+# tier; quick keeps every method but only the tiles around 0 and the rel8/rel32 switch.
+EXTRA_PAD = 7
+BRANCH_BASES_THOROUGH = list(range(0, 137, 8))
+BRANCH_BASES_QUICK = [0, 120, 128]
+RL_BASES_THOROUGH = [0, 8, 128]   # RIP-relative label loads have no short/near switch
+RL_BASES_QUICK = [0]
+UNWIND = int(os.environ.get("C07_UNWIND", "6"))
 
 
 def asm_src():
@@ -310,7 +314,7 @@ class Gen:
         return L
 
     # -- one unit --------------------------------------------------------------------------
-    def emit_unit(self, variant, method, kind, sig, sp, ops, ctor=None, label_dir=None, pad=0):
+    def emit_unit(self, variant, method, kind, sig, sp, ops, ctor=None, label_dir=None, pad=0, base=0):
         """kind: legal | any | label.  A unit draws the operands, calls the method on the given
         assembler and returns the expectation."""
         uname = "u_%s__%s" % (method, variant)
@@ -368,34 +372,38 @@ class Gen:
             body.append("let tail = 0usize;")
             body.append("let target: Option<i64> = None;")
         else:
+            # distance = `base` filler bytes emitted at concrete positions + n <= pad symbolic ones
             body.append("let n = s.u8();")
             draws.append(("n", "u8"))
             body.append("if !s.assume(n <= %d) { return None; }" % pad)
             body.append("a.nop();")
             short = sp.get("branch") == "short"
+            fill = ["a.emit_u128(FILL);"] * (base // 16) + (["a.emit_u64(FILL as u64);"] if base % 16 == 8 else [])
             if label_dir == "fwd":
                 body.append("let lbl = a.create_label();")
                 body.append(call)
+                body += fill
                 body.append("pad(a, n, %d);" % pad)
                 body.append("a.bind_label(lbl);")
                 body.append("a.nop();")
                 body.append("let at = 1usize;")
-                body.append("let tail = n as usize + 1;")
+                body.append("let tail = %d + n as usize + 1;" % base)
                 # the label is bound in front of the last byte
                 body.append("let target: Option<i64> = Some(-1);")
                 if short:
-                    body.append("legal = legal && n <= 127;")
+                    body.append("legal = legal && %d + (n as usize) <= 127;" % base)
             else:
                 body.append("let lbl = a.create_and_bind_label();")
+                body += fill
                 body.append("pad(a, n, %d);" % pad)
                 body.append(call)
                 body.append("a.nop();")
-                body.append("let at = 1usize + n as usize;")
+                body.append("let at = 1usize + %d + n as usize;" % base)
                 body.append("let tail = 1usize;")
                 body.append("let target: Option<i64> = Some(1);")
                 if short:
-                    # rel8 = -(n + 2) must be >= -128
-                    body.append("legal = legal && n <= 126;")
+                    # rel8 = -(distance + 2) must be >= -128
+                    body.append("legal = legal && %d + (n as usize) <= 126;" % base)
         body += self.expected("e", sp, ops, sp["size"], memexpr, label_param is not None)
         altlines = ["let alt: Option<Insn> = None;"]
         if sp.get("commutative") and len(ops) == 2:
@@ -424,13 +432,14 @@ class Gen:
         else:
             cat = "plain"
         self.units.append({"name": uname, "method": method, "kind": kind, "variant": variant, "ctor": ctor,
-                           "label_dir": label_dir, "pad": pad if label_param else None, "avx": avx_class, "cat": cat,
+                           "label_dir": label_dir, "pad": pad if label_param else None, "base": base if label_param else None,
+                           "avx": avx_class, "cat": cat,
                            "draws": [{"name": n, "type": t} for n, t in draws]})
 
     # -- groups ------------------------------------------------------------------------------
     def make_groups(self):
         limits = {"plain": int(os.environ.get("C07_GROUP_PLAIN", "12")), "mem": int(os.environ.get("C07_GROUP_MEM", "6")),
-                  "branch": int(os.environ.get("C07_GROUP_BRANCH", "2")), "rl": int(os.environ.get("C07_GROUP_RL", "6"))}
+                  "branch": int(os.environ.get("C07_GROUP_BRANCH", "4")), "rl": int(os.environ.get("C07_GROUP_RL", "6"))}
         only = [x for x in os.environ.get("C07_ONLY_UNITS", "").split(",") if x]
         if only:
             limits = {k: 1 for k in limits}
@@ -439,7 +448,7 @@ class Gen:
         for u in self.units:
             if only and u["name"] not in only:
                 continue
-            key = (u["cat"], u["kind"], u["ctor"] or "", u["label_dir"] or "", u["avx"])
+            key = (u["cat"], u["kind"], u["ctor"] or "", (u["label_dir"] or "") + ("_b%d" % u["base"] if u["label_dir"] else ""), u["avx"])
             if key not in buckets:
                 buckets[key] = []
                 order.append(key)
@@ -459,8 +468,9 @@ class Gen:
     def emit_group(self, gname, units, key):
         cat, kind, ctor, label_dir, avx = key
         k = len(units)
-        pad = max([u["pad"] or 0 for u in units])
-        unwind = (pad + 3) if cat in ("branch", "rl") else UNWIND
+        need = max([(u["base"] or 0) + (u["pad"] or 0) for u in units]) + 24
+        cap = 32 if need <= 32 else 176
+        unwind = UNWIND
         W = self.w
         W("pub fn g_%s<S: Src>(s: &mut S) -> Option<(u8, Outcome)> {" % gname)
         W("    let sel = s.u8();")
@@ -484,7 +494,7 @@ class Gen:
         W("#[cfg(kani)]")
         W("#[kani::proof]")
         W("#[kani::unwind(%d)]" % unwind)
-        W("#[kani::stub(std::vec::Vec::new, crate::vecmodel::new)]")
+        W("#[kani::stub(std::vec::Vec::new, crate::vecmodel::new_%d)]" % cap)
         W("#[kani::stub(std::vec::Vec::push, crate::vecmodel::push)]")
         W("#[kani::stub(std::vec::Vec::extend_from_slice, crate::vecmodel::extend_from_slice)]")
         W("#[kani::stub(<[u8]>::copy_from_slice, crate::vecmodel::copy_from_slice)]")
@@ -493,13 +503,15 @@ class Gen:
         W("    if let Some((sel, o)) = g_%s(&mut s) {" % gname)
         W("        let ok = all_ok(&o);")
         for n, u in enumerate(units):
+            # per unit: a solver-side vacuity witness (some operand tuple is accepted and decodes as
+            # specified) and the proof obligation itself
             W('        kani::cover!(sel == %d && ok, "C07:witness:%s");' % (n, u["name"]))
             W('        assert!(sel != %d || ok, "C07:m:%s");' % (n, u["name"]))
         W("    }")
         W("}")
         W("")
         self.groups.append({"name": gname, "harness": "h_" + gname, "units": [u["name"] for u in units], "unwind": unwind,
-                            "avx": avx, "cat": cat, "kind": kind})
+                            "avx": avx, "cat": cat, "kind": kind, "vec_capacity": cap})
 
     # -- everything --------------------------------------------------------------------------
     def run(self):
@@ -515,13 +527,11 @@ class Gen:
         self.w("use crate::{all_ok, KaniSrc};")
         self.w("use dora_asm::x64::*;")
         self.w("")
-        self.w("/// filler of n <= max bytes")
-        self.w("fn pad(a: &mut AssemblerX64, n: u8, max: u8) {")
-        self.w("    let mut k = 0u8;")
-        self.w("    while k < max {")
-        self.w("        if k < n { a.nop(); }")
-        self.w("        k += 1;")
-        self.w("    }")
+        self.w("const FILL: u128 = 0x90909090_90909090_90909090_90909090u128;")
+        self.w("/// filler of n <= %d bytes, without a loop (keeps the unwind bound of the harnesses small)" % EXTRA_PAD)
+        self.w("fn pad(a: &mut AssemblerX64, n: u8, _max: u8) {")
+        for k in range(EXTRA_PAD):
+            self.w("    if %d < n { a.nop(); }" % k)
         self.w("}")
         self.w("")
         self.w("fn run_unit(s: &mut ListSrc, avx_class: u8, f: fn(&mut ListSrc, &mut AssemblerX64) -> Option<Exp>) -> Option<Outcome> {")
@@ -537,9 +547,14 @@ class Gen:
         self.w("}")
         self.w("")
         encoded = []
+        # development / mutation-testing aid: restrict the run to some methods (evidence says so)
+        only_methods = [x for x in os.environ.get("C07_ONLY_METHODS", "").split(",") if x]
+        self.restricted_to = only_methods
         for name in self.p["order"]:
             sig = self.p["methods"][name]
             if name in infra:
+                continue
+            if only_methods and name not in only_methods:
                 continue
             sp = spec_methods.get(name)
             if sp is None:
@@ -565,12 +580,13 @@ class Gen:
             encoded.append(name)
             if has_label:
                 is_branch = "branch" in sp
-                if thorough:
-                    pad = FULL_PAD if is_branch else RL_PAD
+                if is_branch:
+                    bases = BRANCH_BASES_THOROUGH if thorough else BRANCH_BASES_QUICK
                 else:
-                    pad = QUICK_PAD if is_branch else QUICK_RL_PAD
-                self.emit_unit("label_fwd", name, "label", sig, sp, ops, label_dir="fwd", pad=pad)
-                self.emit_unit("label_bwd", name, "label", sig, sp, ops, label_dir="bwd", pad=pad)
+                    bases = RL_BASES_THOROUGH if thorough else RL_BASES_QUICK
+                for b in bases:
+                    self.emit_unit("label_fwd_b%d" % b, name, "label", sig, sp, ops, label_dir="fwd", pad=EXTRA_PAD, base=b)
+                    self.emit_unit("label_bwd_b%d" % b, name, "label", sig, sp, ops, label_dir="bwd", pad=EXTRA_PAD, base=b)
             elif has_addr:
                 for c in ("offset", "array"):
                     self.emit_unit("legal_" + c, name, "legal", sig, sp, ops, ctor=c)
@@ -627,13 +643,14 @@ def generate(tier, out_dir=None):
     _write_if_changed(os.path.join(out_dir, "src", "harnesses.rs"), "\n".join(g.out) + "\n")
     manifest = {
         "tier": tier, "asm_src": src_dir, "crate": out_dir, "groups": g.groups, "units": g.units, "functions_encoded": encoded,
-        "unspecified": g.unspecified, "spec_entries_without_method": g.skipped_spec,
+        "unspecified": g.unspecified, "spec_entries_without_method": g.skipped_spec, "restricted_to": g.restricted_to,
         "condition_variants": [v for v, _ in g.conds], "condition_variants_unspecified": g.cond_unspecified,
         "address_constructors": sorted(g.ctors), "address_constructors_unspecified": sorted(set(parsed["ctors"]) - set(g.ctors)),
-        "bounds": {"unwind": UNWIND, "unwind_label": "pad + 3",
-                   "branch_pad_max": FULL_PAD if tier == "thorough" else QUICK_PAD,
-                   "rl_pad_max": RL_PAD if tier == "thorough" else QUICK_RL_PAD,
-                   "vec_model_capacity": 192},
+        "bounds": {"unwind": UNWIND, 
+                   "branch_distances": "base + 0..=%d for base in %s" % (EXTRA_PAD, BRANCH_BASES_THOROUGH if tier == "thorough" else BRANCH_BASES_QUICK),
+                   "branch_pad_max": (BRANCH_BASES_THOROUGH if tier == "thorough" else BRANCH_BASES_QUICK)[-1] + EXTRA_PAD,
+                   "rl_distances": "base + 0..=%d for base in %s" % (EXTRA_PAD, RL_BASES_THOROUGH if tier == "thorough" else RL_BASES_QUICK),
+                   "vec_model_capacity": "32 (176 for branch units with long filler)"},
     }
     with open(os.path.join(out_dir, "harnesses.json"), "w") as f:
         json.dump(manifest, f, indent=1)
